@@ -53,9 +53,10 @@ def run_plan(prop, tier, plan, replay=None):
             continue
         what = e.pop("what")
         results.append(rc.run_exec(tr, what, emit=True, backends=True, **e))
-    sim = plan.get("sim")
     simcases = []
-    if sim:
+    for sim in [plan.get("sim")] + list(plan.get("sims", [])):
+        if not sim:
+            continue
         sim = dict(sim)
         num = sim.pop("num")[0 if tier == "quick" else 1]
         what = sim.pop("what", "simulation")
@@ -89,7 +90,9 @@ def run_plan(prop, tier, plan, replay=None):
         "exhaustive": False,
         "backends": list(plan.get("backends", relreplay.BACKENDS)),
     }
-    common.write_evidence(prop, tier, "model_checking", cov, wall, len(vd.violations),
+    if plan.get("level", "model_checking") != "model_checking":
+        cov["explanation"] = plan["explanation"]
+    common.write_evidence(prop, tier, plan.get("level", "model_checking"), cov, wall, len(vd.violations),
                           assumptions=ASSUME_REL + plan.get("assumptions", []))
     return vd.report()
 
@@ -123,18 +126,48 @@ SIMT = dict(tabcols="SIM_TabCols", colvals="SIM_ColVals")
 
 UNARY = ["extend", "wextend", "project", "select_rows", "cols", "order"]
 
+# focused simulations: consecutive steps of these families interact through the columns the first one writes
+# (the generator prefers keys / sources / operands written by the previous step)
+def inter(fams, num=(400, 4000), rows=3, steps=2):
+    return dict(what="random %d-call pipelines of %s (step interactions)" % (steps, "/".join(fams)), fams=fams, num=num, rows=rows,
+                steps=steps, **SIMT)
+
+
+# exhaustive interaction strata over a micro alphabet (Level 0 of Exec.tla): an extend that re-orders / re-keys a column
+# followed by windows ordered by it, aggregates grouped by it, selections, drops and limits
+MICRO = dict(fams=["xo", "wo", "po", "co", "oo"], rows=2, level=0, tabcols="MCB_TabCols", colvals="MCW_ColVals", timeout=600)
+
+
+def micro(steps, one_in, tier=None):
+    d = dict(what="micro alphabet (o := x - o | z := x - o; windows ordered by o/z; project by o/z; drop/select; order+limit): "
+                  "every %d-call pipeline over all tables of <= 2 rows (one in %d replayed)" % (steps, one_in),
+             steps=steps, one_in=one_in, **MICRO)
+    if tier:
+        d["tier"] = tier
+    return d
+
+
+MICRO_W2 = dict(what="two consecutive windowed extends over two-column orderings in both priorities, all tables of <= 2 rows",
+                fams=["wo2"], rows=2, steps=2, level=0, tabcols="MCB_TabCols", colvals="MCW_ColVals", timeout=300)
+JOIN_SHARED = dict(what="every join type x key spec over all pairs of tables sharing a non-key column, <= 1 row each (sampled)",
+                   fams=["stack", "binary"], rows=1, steps=2, level=2, one_in=4, tabcols="MCJ_TabCols", colvals="MCJ_ColVals")
+
+INTERACTIONS = [inter(["extend", "wextend"]), inter(["extend", "project"]), inter(["extend", "order", "cols"], steps=3),
+                inter(["wextend", "cols", "project"], steps=3), inter(["extend", "select_rows", "cols"], steps=3)]
+
 PLAN_C01 = {
     "mc": [
         dict(what="laws, one table, <=2 rows, every unary step", fams=UNARY, rows=2, steps=1, level=1, **T1),
         dict(what="laws, two tables, <=1 row, join/concat", fams=["stack", "binary"], rows=1, steps=2, level=1, **T12),
         dict(what="laws, one table, <=3 rows, every unary step", fams=UNARY, rows=3, steps=1, level=1, tier=("thorough",), **T1),
     ],
-    "emit": [
+    "emit": [micro(2, 8), micro(3, 60, ("thorough",)), 
         dict(what="all 1-step pipelines over all tables with <=1 row", fams=UNARY, rows=1, steps=1, level=1, **T1),
         dict(what="all 1-step pipelines over all tables with <=2 rows", fams=UNARY, rows=2, steps=1, level=1,
              tier=("thorough",), **T1),
     ],
-    "sim": dict(what="random pipelines of 3 steps over 2 tables of <=3 rows", num=(1500, 12000), rows=3, steps=3, **SIMT),
+    "sim": dict(what="random pipelines of 3 steps over 2 tables of <=3 rows", num=(1200, 12000), rows=3, steps=3, **SIMT),
+    "sims": INTERACTIONS,
     "backends": ("pandas", "sqlite"),
     "differential": {"pandas": "sqlite", "sqlite": "pandas"},
     "allow_raise": (),
@@ -151,7 +184,7 @@ def nt_rows(case, n=2):
 
 PLAN_C03 = {
     "mc": [dict(what="laws, one table, <=2 rows, every unary step", fams=UNARY, rows=2, steps=1, level=1, **T1)],
-    "emit": [dict(what="all 1-step pipelines over all tables with <=1 row", fams=UNARY, rows=1, steps=1, level=1, **T1)],
+    "emit": [JOIN_SHARED, micro(2, 8), micro(3, 60, ("thorough",)), dict(what="all 1-step pipelines over all tables with <=1 row", fams=UNARY, rows=1, steps=1, level=1, **T1)],
     "sim": dict(what="random pipelines of 3 steps over 2 tables of <=3 rows", num=(1500, 12000), rows=3, steps=3, **SIMT),
     "backends": ("pandas", "polars", "polars_lazy"),
     "differential": {"polars": "pandas", "polars_lazy": "pandas", "pandas": "polars"},
@@ -160,9 +193,13 @@ PLAN_C03 = {
 
 PLAN_C02 = {
     "mc": [dict(what="laws, two tables, <=1 row, join/concat", fams=["stack", "binary"], rows=1, steps=2, level=1, **T12)],
-    "emit": [dict(what="all 1-step pipelines over all tables with <=1 row", fams=UNARY, rows=1, steps=1, level=1, **T1)],
+    "emit": [micro(2, 8), micro(3, 60, ("thorough",)), dict(what="all 1-step pipelines over all tables with <=1 row", fams=UNARY, rows=1, steps=1, level=1, **T1)],
     "sim": dict(what="random pipelines of 3 steps over 2 tables of <=3 rows", num=(1500, 12000), rows=3, steps=3, **SIMT),
     "backends": ("pandas", "pg"),
+    "level": "other",
+    "explanation": "model checking of the reference laws plus replay of TLC-generated behaviours into PostgreSQLModel.to_sql, whose text is "
+                   "executed on SQLite 3.40 as a proxy because no PostgreSQL engine exists in the sandbox; the counts under states / "
+                   "transitions / traces_validated_against_impl are those of this run",
     "differential": {"pandas": "pg", "pg": "pandas"},
     "allow_raise": (),
     "assumptions": ["NO PostgreSQL engine exists in the sandbox: the SQL text produced by PostgreSQLModel.to_sql is executed on "
@@ -176,7 +213,7 @@ PLAN_C08 = {
         dict(what="DeclaredCols, one table, <=2 rows, every unary step", fams=UNARY, rows=2, steps=1, level=1, **T1),
         dict(what="DeclaredCols, two tables, <=1 row, join/concat", fams=["stack", "binary"], rows=1, steps=2, level=1, **T12),
     ],
-    "emit": [dict(what="all 1-step pipelines over all tables with <=1 row", fams=UNARY, rows=1, steps=1, level=1, **T1)],
+    "emit": [micro(2, 8), micro(3, 60, ("thorough",)), dict(what="all 1-step pipelines over all tables with <=1 row", fams=UNARY, rows=1, steps=1, level=1, **T1)],
     "sim": dict(what="random pipelines of 3 steps over 2 tables of <=3 rows", num=(1500, 12000), rows=3, steps=3, **SIMT),
     "backends": ("pandas", "sqlite", "pg", "polars"),
     "opts": {"values": False, "col_order": True},
@@ -196,11 +233,12 @@ PLAN_C09 = {
         dict(what="laws, project after project / extend (2 steps), <=1 row", fams=["project", "extend"],
              rows=1, steps=2, level=1, **T1),
     ],
-    "emit": [
+    "emit": [micro(2, 8), micro(3, 60, ("thorough",)), 
         dict(what="every project / windowed extend over all tables with <=2 rows (one in 40 replayed)",
              fams=["project", "wextend"], rows=2, steps=1, level=1, one_in=40, **T1),
     ],
     "sim": dict(what="random pipelines around project and windowed extend", fams=AGG, num=(1200, 12000), rows=3, steps=3, **SIMT),
+    "sims": [inter(["extend", "project"]), inter(["project", "cols"], steps=2), inter(["extend", "wextend"])],
     "backends": ("pandas", "sqlite", "polars"),
     "nontrivial": lambda c: has_op(c, ("project", "wextend")) and nt_rows(c, 2),
     "relevant_ops": ("project", "wextend"),
@@ -213,7 +251,7 @@ PLAN_C16 = {
         dict(what="join laws (row counts, null keys never match, coalesce), two tables, <=2 rows", fams=["stack", "binary"],
              rows=2, steps=2, level=1, tabcols="MCJ_TabCols", colvals="MCJ_ColVals"),
     ],
-    "emit": [
+    "emit": [JOIN_SHARED, 
         dict(what="every join type x key spec over all table pairs with <=1 row (one in 5 replayed)",
              fams=["stack", "binary"], rows=1, steps=2, level=2, one_in=5, **T12),
     ],
@@ -229,9 +267,10 @@ PLAN_C27 = {
         dict(what="window laws, one table, <=2 rows", fams=["wextend"], rows=2, steps=1, level=1, **T1),
         dict(what="window laws, one table, <=3 rows", fams=["wextend"], rows=3, steps=1, level=1, tier=("thorough",), **T1),
     ],
-    "emit": [dict(what="every windowed extend over all tables with <=2 rows (one in 30 replayed)", fams=["wextend"],
+    "emit": [MICRO_W2, micro(2, 8), micro(3, 60, ("thorough",)), dict(what="every windowed extend over all tables with <=2 rows (one in 30 replayed)", fams=["wextend"],
                   rows=2, steps=1, level=1, one_in=30, **T1)],
     "sim": dict(what="random pipelines around windowed extend", fams=WINF, num=(1500, 12000), rows=4, steps=2, **SIMT),
+    "sims": [inter(["extend", "wextend"], rows=4), inter(["wextend"], rows=4, steps=2)],
     "backends": ("pandas", "sqlite", "polars"),
     "nontrivial": lambda c: has_op(c, ("wextend",)) and nt_rows(c, 2),
     "relevant_ops": ("wextend",),
@@ -242,7 +281,7 @@ PLAN_C18 = {
         dict(what="PermLaw and OrderSorted/LimitIsPrefix (StepLaw), one table, <=2 rows", fams=UNARY, rows=2, steps=1, level=1, **T1),
         dict(what="PermLaw, two tables, <=1 row, join/concat", fams=["stack", "binary"], rows=1, steps=2, level=1, **T12),
     ],
-    "emit": [dict(what="every order_rows over all tables with <=2 rows", fams=["order"], rows=2, steps=1, level=1, **T1)],
+    "emit": [micro(2, 8), micro(3, 60, ("thorough",)), dict(what="every order_rows over all tables with <=2 rows", fams=["order"], rows=2, steps=1, level=1, **T1)],
     "sim": dict(what="random pipelines of 3 steps over 2 tables of <=3 rows", num=(700, 6000), rows=3, steps=3, **SIMT),
     "backends": ("pandas", "sqlite", "polars"),
     "opts": {"variants": [None, "perm", "perm_keepidx", "dupidx", "stridx"]},
